@@ -49,6 +49,7 @@ Definition PLUS4 : N := 5%N.           (* known shape: LAST change output, coin 
 Definition NOTREFUSED : N := 6%N.      (* serialization accepted a negative quantity *)
 Definition FORMULA : N := 7%N.         (* min-ADA utility differs from the ledger formula *)
 Definition MALFORMED : N := 8%N.       (* output bytes do not decode / are not canonical *)
+Definition REJECTED : N := 9%N.        (* the min-ADA answer put into the (zero-ADA) output is rejected by the ledger *)
 Definition first_fail (l : list N) : N := match filter (fun x => negb (x =? 0)%N) l with [] => 0%N | x :: _ => x end.
 
 Definition two32 : Z := 4294967296.
@@ -117,13 +118,22 @@ Definition d_map_size (d : dout) : N :=
   lenN (enc (CM ((CU 0, CB (d_addr d)) :: (CU 1, value_prim (d_val d)) :: d_extra d))).
 
 (* ---------- the min-ADA utility ---------- *)
-(* own : the output's own to_cbor() (legacy or map form) *)
+(* own : the output's own to_cbor() (legacy or map form). Decided on the DECODED bytes, by the ledger rule, which
+   knows coins_per_utxo_byte only (whatever other protocol parameters the chain context reports):
+   - an output that carries ADA: the answer is cpb * (160 + |map form|) exactly;
+   - an output without ADA ("how much does this bundle need?", the way the builder asks for every token change):
+     (a) the answer, put into the output, is accepted by the ledger (checked when the answer needs at most 5
+         bytes, cf. ChangeProofs.min_lovelace_sufficient and its _needs_premise counterexample), and
+     (b) it is the formula for the output holding the documented 1 ADA stand-in. *)
 Definition minada_oracle (c : cfg) (own : bytes) (impl : Z) (unchanged : bool) : N :=
   match dec_output own with
   | None => MALFORMED
   | Some d =>
       let d' := mkD (d_addr d) (subst_coin (d_val d)) (d_extra d) in
+      let filled := mkD (d_addr d) (mkValue impl (massets (d_val d))) (d_extra d) in
       if negb unchanged then FORMULA
+      else if (coin (d_val d) =? 0) && (0 <=? impl) && (impl <? two32)
+              && negb (min_ada (cpb c) (d_map_size filled) <=? impl) then REJECTED
       else if impl =? min_ada (cpb c) (d_map_size d') then OKc else FORMULA
   end.
 Definition minada_corr (c : cfg) (o : txout) (map_cbor : bytes) (impl : Z) : bool :=
